@@ -230,10 +230,18 @@ def build_kde(chk):
     SS = ir.var('sample_size', 'I')
     JDX = ir.var('@j', 'I')
     res = []
-    for cfg, kw in (('default', {}), ('sample_size', {'sample_size': Sym(SS)})):
+    for cfg, kw in (('default', {}), ('sample_size', {'sample_size': Sym(SS)}), ('refit', {})):
         def prior(I, c, m, cfg=cfg):
             if cfg == 'sample_size':
                 c.assume(ir.ge(SS, 2))
+            if cfg == 'refit':
+                # history: the same object was fitted before on OTHER non-constant data y and its CDF was evaluated there
+                # (whatever a query caches must not survive the next fit): the formulas below are over x alone
+                ny = Sym(ir.var('ny', 'I'))
+                c.assume(ir.ge(ny.t, 2))
+                c.assume(ir.gt(ir.uf('n_unique', [ir.var('y', 'U')], 'I'), 1))
+                I.call_method(m, 'fit', [Lane(ir.var('y@i'), ny)])
+                I.call_method(m, 'cumulative_distribution', [uni.query_lane()])
         _, rs_, _ = uni.run_fit_and_query(cls, ctor_kwargs=kw, methods=('probability_density', 'log_probability_density',
                                                                           'cumulative_distribution'), constant=False,
                                           prior=prior)
@@ -242,7 +250,7 @@ def build_kde(chk):
         res += rs_
 
     def spec(cfg):
-        if cfg == 'default':
+        if cfg in ('default', 'refit'):
             D, xj = XW, ir.var('x@j')
         else:
             g0 = ir.var('G0', 'U')
